@@ -51,6 +51,14 @@ CHECKS = {
   technique="Coq proof (decimation-in-time induction over an abstract field with Leibniz equality, loop invariants for the bit-reversal swap loop and the three butterfly loops, verified modular exponentiation on the regenerated root table) + differential correspondence for both fields",
   text="26 theorems C06_* (props/C06.v), nothing partial: every one of the 34 regenerated table entries has multiplicative order exactly n; for every l <= 31 and every canonical vector of length 2^l the model of ntt is the DFT at the powers of the library's primitive root and intt is its exact inverse (equalities on Montgomery words), over the base field and - coordinate-wise, unconditionally - over the extension field; ntt_noswap = bitreverse_order o ntt, intt_noswap + unscale compose to the inverse; lengths 0/1 and documented panics (non powers of two, 2^32). The loop model is hand-written and tied to ntt.rs by 3129 (quick) cases x 2 profiles: unit vectors (a spanning set), boundary values, non-power-of-two lengths, every table entry; the oracle also checks the model against a naive zarith DFT.",
   note="ntt.rs is hand-modelled (loops); PRIMITIVE_ROOTS is regenerated from the source. Lengths >= 2^17 are executed only in the thorough tier (spot positions); the theorem covers them. Extra extraction directive: Z.pow -> zarith."),
+ "C02": dict(
+  technique="Coq proof about tables, the MDS straight-line program (as an SSA program) and lane recombination REGENERATED from tip5.rs / mds.rs on every run (generic SSA linearity lemma + vm_compute of the coefficient matrix; lia for the 64/128-bit lane arithmetic), refinement of the hand-written round / permutation model to the Tip5 specification on field values + differential correspondence on engineered states",
+  text="20 theorems C02_* (props/C02.v), nothing partial: lookup table = formula, regenerated constants = specification literals, the regenerated 253-node generated_function computes exactly 16 x (circulant MDS product) on 32-bit limbs for ALL inputs, lane recombination congruent mod p and < 2^64 without overflow, round-constant margin so that every state after a round is canonical, S-box on Montgomery bytes, x^7; round / permutation / trace / hash_10 / hash_pair / Digest::hash refine the specification for every canonical 16-tuple. Tied by 2529 (quick) / 115k (thorough) states x 2 profiles engineered to hit 64-bit carries, lane sums in [p, 2^64), 0x00/0xff lookup bytes.",
+  note="Derivation of the round constants / MDS column from BLAKE3 / SHA-256 is not re-proved: they are golden specification literals (the repo's own tests check the derivation). Loops over the 16 lanes, byte splitting and the sponge plumbing are hand-modelled. Extra extraction directive: Z.pow -> zarith."),
+ "C15": dict(
+  technique="Coq proof (padding shape/injectivity generic over the sponge; Tip5 absorb/squeeze/hash_varlen refinement; fuelled rejection-sampling specification) + differential correspondence with a recording sponge and directly set Tip5 states",
+  text="13 theorems C15_* (props/C15.v), nothing partial: pad = input ++ [1] ++ fewest zeros to a multiple of the rate, injective; pad_and_absorb_all absorbs exactly that for any sponge; variable- and fixed-length initial states differ in the capacity; hash_varlen; sample_indices returns the low bits of successive squeezed elements skipping exactly p-1 and leaves the state after the fewest squeezes; sample_scalars groups in threes. Tied by 1076 (quick) / 13k (thorough) cases x 2 profiles with rejected elements placed at chosen positions.",
+  note="Termination of rejection sampling for the concrete permutation is not provable: stated with fuel. sample_indices with a zero or non-power-of-two bound is out of scope (release and checked builds differ there by design of debug_assert)."),
 }
 
 ORDER = ["C%02d" % i for i in range(1, 21)]
